@@ -5,7 +5,7 @@ Property theorems only (helper lemmas live in Lemmas/ParetoLoop.lean).
 Model: PybropsModel/Model/Pareto.lean (`efficientIdx`, `efficientMask` transcribe
 pybrops/core/util/pareto.py:is_pareto_efficient; `dominates` transcribes pymoo_addon.dominates).
 -/
-import PybropsModel.Lemmas.ParetoVec
+import PybropsModel.Lemmas.ParetoSet
 set_option linter.unusedSectionVars false
 set_option autoImplicit false
 
@@ -82,7 +82,125 @@ theorem mask_length (fmat : List (List α)) (wt : List α) :
     (efficientMask fmat wt).length = fmat.length := by
   simp [efficientMask]
 
+/-- the objective vectors marked efficient -/
+def effVecs (fmat : List (List α)) (wt : List α) : List (List α) :=
+  (efficientIdx fmat wt).map (wrow fmat wt)
+
+/-- **Set characterisation.**  The set of efficient objective vectors is exactly the set of maximal
+    elements of the set of weighted input vectors — it mentions the input only through membership. -/
+theorem efficient_vectors_char (fmat : List (List α)) (wt : List α)
+    (hrect : ∀ r ∈ fmat, r.length = wt.length) (v : List α) :
+    v ∈ effVecs fmat wt ↔
+      (v ∈ fmat.map (applyWt wt) ∧ ∀ u ∈ fmat.map (applyWt wt), weakDom v u = true → weakDom u v = true) := by
+  obtain ⟨h1, h2, h3⟩ := filter_facts fmat wt hrect
+  have memV : ∀ u, u ∈ fmat.map (applyWt wt) ↔ ∃ i, i < fmat.length ∧ u = wrow fmat wt i := by
+    intro u
+    simp only [List.mem_map, wrow]
+    constructor
+    · rintro ⟨r, hr, rfl⟩
+      obtain ⟨i, hi, rfl⟩ := List.mem_iff_getElem.mp hr
+      exact ⟨i, hi, by simp [List.getD_eq_getElem?_getD, List.getElem?_eq_getElem hi]⟩
+    · rintro ⟨i, hi, rfl⟩
+      exact ⟨fmat[i], List.getElem_mem hi, by simp [List.getD_eq_getElem?_getD, List.getElem?_eq_getElem hi]⟩
+  unfold effVecs
+  rw [efficientIdx_eq]
+  constructor
+  · intro hv
+    obtain ⟨i0, hi0, rfl⟩ := List.mem_map.mp hv
+    obtain ⟨x, hx, rfl⟩ := List.mem_map.mp hi0
+    have hxr := h1 x hx
+    obtain ⟨hlt, hxv⟩ := (mem_rows fmat wt x).mp hxr
+    refine ⟨(memV _).mpr ⟨x.1, hlt, rfl⟩, ?_⟩
+    · intro u hu hvu
+      obtain ⟨j, hj, rfl⟩ := (memV u).mp hu
+      have hy : (j, wrow fmat wt j) ∈ rows fmat wt := (mem_rows fmat wt _).mpr ⟨hj, rfl⟩
+      have := h3 x hx _ hy (by
+        show weakDom x.2 (wrow fmat wt j) = true
+        rw [hxv]; exact hvu)
+      have : weakDom (wrow fmat wt j) x.2 = true := this
+      rw [hxv] at this
+      exact this
+  · rintro ⟨hv, hmax⟩
+    obtain ⟨i, hi, rfl⟩ := (memV v).mp hv
+    have hr : (i, wrow fmat wt i) ∈ rows fmat wt := (mem_rows fmat wt _).mpr ⟨hi, rfl⟩
+    by_cases hin : (i, wrow fmat wt i) ∈ paretoGo wdI [] (rows fmat wt)
+    · exact List.mem_map.mpr ⟨i, List.mem_map.mpr ⟨_, hin, rfl⟩, rfl⟩
+    · obtain ⟨s, hs, hws⟩ := h2 _ hr hin
+      have hsr := h1 s hs
+      obtain ⟨hslt, hsv⟩ := (mem_rows fmat wt s).mp hsr
+      have hws' : weakDom (wrow fmat wt i) (wrow fmat wt s.1) = true := by
+        have : weakDom (wrow fmat wt i) s.2 = true := hws
+        rw [hsv] at this; exact this
+      have hsu : wrow fmat wt s.1 ∈ fmat.map (applyWt wt) := (memV _).mpr ⟨s.1, hslt, rfl⟩
+      have hback := hmax _ hsu hws'
+      have hlen : (wrow fmat wt i).length = (wrow fmat wt s.1).length := by
+        have a := rows_length_eq fmat wt hrect _ hr
+        have b := rows_length_eq fmat wt hrect _ hsr
+        rw [hsv] at b
+        exact a.trans b.symm
+      exact List.mem_map.mpr ⟨s.1, List.mem_map.mpr ⟨s, hs, rfl⟩, (weakDom_antisymm _ _ hlen hws' hback).symm⟩
+
+/-- **Order independence.**  Permuting the points does not change the set of efficient vectors. -/
+theorem perm_invariant_set (fmat fmat' : List (List α)) (wt : List α) (hp : fmat.Perm fmat')
+    (hrect : ∀ r ∈ fmat, r.length = wt.length) (v : List α) :
+    v ∈ effVecs fmat wt ↔ v ∈ effVecs fmat' wt := by
+  have hrect' : ∀ r ∈ fmat', r.length = wt.length := fun r hr => hrect r (hp.mem_iff.mpr hr)
+  rw [efficient_vectors_char fmat wt hrect, efficient_vectors_char fmat' wt hrect']
+  have hm : ∀ u, u ∈ fmat.map (applyWt wt) ↔ u ∈ fmat'.map (applyWt wt) :=
+    fun u => (hp.map _).mem_iff
+  constructor
+  · rintro ⟨h1, h2⟩; exact ⟨(hm v).mp h1, fun u hu => h2 u ((hm u).mpr hu)⟩
+  · rintro ⟨h1, h2⟩; exact ⟨(hm v).mpr h1, fun u hu => h2 u ((hm u).mp hu)⟩
+
 end filter
+
+section rescale
+variable {α : Type} [CommRing α] [LinearOrder α] [IsStrictOrderedRing α]
+
+/-- **Positive rescaling of objectives** leaves the filter's answer (indices, hence mask and
+    vectors up to the same rescaling) unchanged. -/
+theorem rescale_invariant (fmat : List (List α)) (wt cs : List α)
+    (hrect : ∀ r ∈ fmat, r.length = wt.length) (hcs : cs.length = wt.length)
+    (hpos : ∀ c ∈ cs, 0 < c) :
+    efficientIdx fmat (List.zipWith (· * ·) wt cs) = efficientIdx fmat wt := by
+  rw [efficientIdx_eq, efficientIdx_eq]
+  let g : Nat × List α → Nat × List α := fun p => (p.1, List.zipWith (· * ·) p.2 cs)
+  have hrows : rows fmat (List.zipWith (· * ·) wt cs) = (rows fmat wt).map g := by
+    simp only [rows, List.map_map, List.zipIdx_map]
+    apply List.map_congr_left
+    intro ri _
+    simp only [Function.comp, g, Prod.map, id, applyWt]
+    congr 1
+    apply List.ext_getElem
+    · simp [List.length_zipWith, min_assoc]
+    · intro i h1 h2
+      simp only [List.getElem_zipWith]
+      ring
+  rw [hrows]
+  have key := paretoGo_map g (wdI (α := α)) (wdI (α := α)) (rows fmat wt).length [] (rows fmat wt) rfl (by
+    intro a ha b hb
+    simp only [List.nil_append] at ha hb
+    have la := rows_length_eq fmat wt hrect a ha
+    have lb := rows_length_eq fmat wt hrect b hb
+    show weakDom (List.zipWith (· * ·) a.2 cs) (List.zipWith (· * ·) b.2 cs) = weakDom a.2 b.2
+    rw [Bool.eq_iff_iff, weakDom_iff, weakDom_iff]
+    constructor
+    · intro h i h1 h2
+      have hc : i < cs.length := by omega
+      have := h i (by simp [List.length_zipWith]; omega) (by simp [List.length_zipWith]; omega)
+      simp only [List.getElem_zipWith] at this
+      exact le_of_mul_le_mul_right this (hpos _ (List.getElem_mem hc))
+    · intro h i h1 h2
+      simp only [List.length_zipWith, lt_min_iff] at h1 h2
+      simp only [List.getElem_zipWith]
+      exact mul_le_mul_of_nonneg_right (h i h1.1 h2.1) (hpos _ (List.getElem_mem h1.2)).le)
+  simp only [List.map_nil] at key
+  rw [key, List.map_map]
+  apply List.map_congr_left
+  intro p _
+  rfl
+
+end rescale
 
 /-! ### the dominance predicate of the memetic optimisers -/
 section dom
@@ -180,6 +298,9 @@ example : efficientIdx (α := Int) [[1, 2], [2, 1], [1, 1], [2, 1], [0, 3]] [1, 
 example : efficientMask (α := Int) [[1, 2], [2, 1], [1, 1], [2, 1], [0, 3]] [1, 1]
     = [true, true, false, false, true] := by decide
 example : (∀ r ∈ ([[1, 2], [2, 1], [1, 1]] : List (List Int)), r.length = ([1, 1] : List Int).length) := by decide
+example : effVecs (α := Int) [[1, 2], [2, 1], [1, 1], [2, 1], [0, 3]] [1, 1] = [[1, 2], [2, 1], [0, 3]] := by decide
+example : efficientIdx (α := Int) [[1, 2], [2, 1], [1, 1]] (List.zipWith (· * ·) [1, -1] [3, 5])
+    = efficientIdx (α := Int) [[1, 2], [2, 1], [1, 1]] [1, -1] := by decide
 example : dominates (α := Int) [1, 2] 0 [1, 3] 0 = true ∧ dominates (α := Int) [1, 2] 1 [0, 0] 2 = true := by decide
 
 end C19
